@@ -41,5 +41,5 @@ HOW TO RUN THINGS (sandbox without network):
   * Test suite: `cd {W} && PYTHONPATH={W} timeout 2400 /venv/bin/python -m pytest -q -p no:cacheprovider --timeout=900 --continue-on-collection-errors 2>&1 | tail -3`. Run it ONCE on the clean tree first to get the baseline line (expect 1069 passed, possibly with a few pre-existing failures/errors that are unrelated); with your patch the result must be the same. The golden-file tests compare generated headers for testdata/*.emb with testdata/golden_cpp; your change must not alter those unless you also regenerate them in a way a developer plausibly would (prefer not to).
   * Compiler: `cd {W} && PYTHONPATH={W} /venv/bin/python embossc --import-dir <dir> --output-path <out> <file relative to dir>` writes <out>/<file>.h. FILE must be relative to an import dir or nothing is produced.
   * C++: `g++ -std=c++17 -I{W} -I<out> demo.cc -o demo` (runtime headers are in {W}/runtime/cpp). clang++ with -fsanitize=address,undefined is also available.
-  * Every shell command prints a `WARNING conda...` line first; ignore it. Wrap long commands in `timeout`. Never wait on stdin.
+  * Every shell command prints a `WARNING conda...` line first; ignore it. Wrap long commands in `timeout`. Never wait on stdin. NEVER use `git stash` (the stash is shared between all worktrees of the repository and other agents work in sibling worktrees): to switch between clean and patched tree use `git diff > seed_x/patch.diff; git checkout -- .` and `git apply`.
 Verify all four requirements yourself (demo on clean tree: exit 0; demo with patch: non-zero; test suite with patch: same result as baseline) and record that in meta.json. Your final message should be a 5-line summary: file(s) changed, mechanism, what is needed to manifest, demo result clean/patched, test result.""")
